@@ -355,7 +355,7 @@ def run(ctx):
     for var in ("ring", "ringv"):
         st = stats[var]
         # 2. generated programs x schedules
-        n = (6000 if ctx.thorough() else 1000)
+        n = (6000 if ctx.thorough() else 800)
         cases = corpus[var] + [gens[var](ctx.rng, "g%d" % i) for i in range(n)]
         samples[var] = cases[len(corpus[var])]
         ml, il = run_variant(ctx, var, cases, var + "_gen")
